@@ -5,10 +5,37 @@ use crate::query::Query;
 
 impl Query for Comparison {
     fn process<'a, T: Queryable>(&self, state: State<'a, T>) -> State<'a, T> {
+        #[cfg(jsonpath_rust_verif)]
+        if crate::verif::active() && !crate::verif::reenter(crate::verif::CMP) {
+            crate::verif::set_reenter(crate::verif::CMP);
+            let out = self.process(state);
+            let operands = crate::verif::unstash();
+            let op = match self {
+                Comparison::Eq(..) => "==",
+                Comparison::Ne(..) => "!=",
+                Comparison::Gt(..) => ">",
+                Comparison::Gte(..) => ">=",
+                Comparison::Lt(..) => "<",
+                Comparison::Lte(..) => "<=",
+            };
+            let res = match &out.data {
+                Data::Value(v) => v.as_bool(),
+                _ => None,
+            };
+            crate::verif::emit(
+                serde_json::json!({"ev": "cmp", "op": op, "operands": operands, "result": res}),
+            );
+            return out;
+        }
         let root = state.root;
         let (lhs, rhs) = self.vals();
         let lhs = lhs.process(state.clone());
         let rhs = rhs.process(state);
+        #[cfg(jsonpath_rust_verif)]
+        crate::verif::stash(serde_json::json!([
+            crate::verif::operand(&lhs),
+            crate::verif::operand(&rhs)
+        ]));
         match self {
             Comparison::Eq(..) => State::bool(eq(lhs, rhs), root),
             Comparison::Ne(..) => State::bool(!eq(lhs, rhs), root),
